@@ -939,39 +939,70 @@ def do_action(ws, action, sim):
 TERMINAL_ACTIONS = ("break", "raise", "gen_close", "with_exit")
 
 
-def run_scenario(scenario, ws=None, keep=False, on_event=None):
-    """Run one connect() of the real client against the scenario.
+def make_ws(scenario):
+    from lomond.websocket import WebSocket
+    kw = dict(scenario.get("ws_opts", {}))
+    headers = kw.pop("headers", [])
+    url = scenario.get("url", "ws://example.test/")
+    if "proxies" not in kw:
+        kw["proxies"] = {}
+    elif kw["proxies"] == "env":
+        kw["proxies"] = None
+    ws = WebSocket(url, **kw)
+    for h, v in headers:
+        ws.add_header(bytes.fromhex(h), bytes.fromhex(v))
+    return ws
 
-    Returns a Trace.  ``ws`` may be an existing WebSocket object (C17) - then the
-    caller owns CURRENT; otherwise a new Sim is installed for the duration.
-    """
+
+def run_scenario(scenario, on_event=None):
+    """Run one connect() of the real client against the scenario; returns a Trace."""
     global CURRENT
     install()
-    from lomond.websocket import WebSocket
-    own_sim = ws is None or CURRENT is None
-    if own_sim:
-        sim = Sim(scenario)
-        CURRENT = sim
-    else:
-        sim = CURRENT
+    sim = Sim(scenario)
+    CURRENT = sim
     tr = Trace()
     tr.sim = sim
+    tr.log_start = 0
     try:
-        if ws is None:
-            kw = dict(scenario.get("ws_opts", {}))
-            headers = kw.pop("headers", [])
-            url = scenario.get("url", "ws://example.test/")
-            if "proxies" not in kw:
-                kw["proxies"] = {}
-            ws = WebSocket(url, **kw)
-            for h, v in headers:
-                ws.add_header(bytes.fromhex(h), bytes.fromhex(v))
+        ws = make_ws(scenario)
         tr.ws = ws
         _drive(ws, scenario, sim, tr, on_event)
     finally:
-        if own_sim and not keep:
-            CURRENT = None
+        CURRENT = None
+    tr.log_end = len(sim.log)
     return tr
+
+
+def run_chain(scenario, count=None, on_event=None):
+    """connect() ``count`` times (default: once per scripted attempt) on ONE WebSocket
+    object; attempt k may carry its own "reactions" / "connect_opts".  Returns the
+    list of Traces (sharing one Sim; each knows its slice of the wire log)."""
+    global CURRENT
+    install()
+    sim = Sim(scenario)
+    CURRENT = sim
+    traces = []
+    try:
+        ws = make_ws(scenario)
+        for k in range(count or len(scenario["attempts"])):
+            att = scenario["attempts"][k] if k < len(scenario["attempts"]) else {}
+            scn_k = dict(scenario)
+            if "reactions" in att:
+                scn_k["reactions"] = att["reactions"]
+            if "connect_opts" in att:
+                scn_k["connect_opts"] = att["connect_opts"]
+            tr = Trace()
+            tr.sim = sim
+            tr.ws = ws
+            tr.log_start = len(sim.log)
+            tr.keys_before = len(sim.keys_issued)
+            sim.ev_index = -1
+            _drive(ws, scn_k, sim, tr, on_event)
+            tr.log_end = len(sim.log)
+            traces.append(tr)
+    finally:
+        CURRENT = None
+    return traces
 
 
 def _drive(ws, scenario, sim, tr, on_event):
